@@ -887,7 +887,10 @@ func paceCase(k int) rt.Result {
 	mu.Lock()
 	defer mu.Unlock()
 	for i := 1; i < len(at); i++ {
-		if g := at[i].Sub(at[i-1]); g < 190*time.Millisecond {
+		// the timestamp is taken in the dial goroutine, which a loaded machine may schedule
+		// late; only a gap far below the idle-hold time is evidence (exact pacing is judged in
+		// virtual time)
+		if g := at[i].Sub(at[i-1]); g < 100*time.Millisecond {
 			w.violate("refused real dials %d and %d only %v apart; idle-hold time is 200 ms", i-1, i, g)
 		}
 	}
@@ -1215,9 +1218,16 @@ func backpressureCase(k int) rt.Result {
 				seen[[2]byte{m.Body[1], m.Body[2]}]++
 			}
 		}
+		rc.mu.Lock()
+		cleanEOF := rc.eof && errors.Is(rc.rderr, io.EOF)
+		rc.mu.Unlock()
 		for k := range ok {
-			if seen[k] != 1 {
+			if seen[k] > 1 || (seen[k] == 0 && cleanEOF) {
 				w.violate("WriteUpdate (writer %d seq %d) returned nil under back-pressure but appears %d times on the wire", k[0], k[1], seen[k])
+				break
+			}
+			if seen[k] == 0 {
+				w.inconclusive("the connection ended with %v, data in flight may have been lost", rc.rderr)
 				break
 			}
 		}
